@@ -1329,4 +1329,891 @@ theorem inLoop_spec : ∀ (fuel : Nat) (r : AReq) (new : Bytes) (dest : Option N
                       simp only [List.length_append, List.length_cons] at hlt
                       omega
 
+/-- the panic sites of the async model that correspond to panic sites of the Rust as opposed to
+fuel guards (and the `unreachable close state` guard, see `closePoll_panic`) -/
+def asyncPanicSites : List String :=
+  ["async_io:85 payload_idx underflow", "async_io:112 transport accepted more than offered",
+   "async_io:71 lock was dropped mid-write", "async_io:77 poll_write called while poll_flush is pending",
+   "async_io:79 buf shrunk between calls to poll_write",
+   "async_io:122 poll_flush called while poll_write is pending",
+   "async_io:476 lock held with empty output",
+   "async_io:371 final stream should always be valid to set",
+   "async_io:400 stream_buffer not empty",
+   "async_io:437 ignoring stream data should always be allowed",
+   "stream.rs:552 output_buffer must be fully consumed",
+   "async_io:292 streams should follow the order given by Role::input_streams",
+   "async_io:324 output_stream assertion",
+   "request parser panicked"]
+
+/-- a panic message that is not a fuel guard -/
+def RealSite (s : String) : Prop := s ∈ asyncPanicSites ∨ s ∈ strPanicSites
+
+theorem RealSite.not_fuel {s : String} (h : RealSite s) : s ∉ fuelMsgs := by
+  rcases h with h | h
+  · simp only [asyncPanicSites, List.mem_cons, List.not_mem_nil, or_false] at h
+    rcases h with rfl | rfl | rfl | rfl | rfl | rfl | rfl | rfl | rfl | rfl | rfl | rfl | rfl | rfl <;> decide
+  · exact strPanic_not_fuel h
+
+theorem RealSite.of_async {s : String} (h : s ∈ asyncPanicSites) : RealSite s := Or.inl h
+theorem RealSite.of_str {s : String} (h : s ∈ strPanicSites) : RealSite s := Or.inr h
+
+theorem inLoop_fuel {fuel : Nat} {r : AReq} {new : Bytes} {dest : Option Nat} {m : MutexSt} {t : Transport}
+    {r' : AReq} {m' : MutexSt} {t' : Transport} {s : String}
+    (h : inLoop fuel r new dest m t = (r', m', t', .panic s)) (hf : t.input.length < fuel) : RealSite s := by
+  rcases (inLoop_spec _ _ _ _ _ _ h).2.1 hf s rfl with rfl | h
+  · exact .of_async (by decide)
+  · exact .of_str h
+
+theorem pollInput_spec {r : AReq} {dest : Option Nat} {m : MutexSt} {t : Transport}
+    {r' : AReq} {m' : MutexSt} {t' : Transport} {res : IRes}
+    (h : r.pollInput dest m t = (r', m', t', res)) :
+    r'.sp.request = r.sp.request ∧ (∀ s, res = .panic s → RealSite s) := by
+  simp only [AReq.pollInput] at h
+  repeat' (split at h)
+  all_goals first
+    | (cases h; exact ⟨rfl, by simp⟩)
+    | (obtain ⟨_, hsp, _, hin, _, hpan⟩ := pollOutput_spec ‹_›
+       first
+        | (cases h
+           exact ⟨by rw [hsp], fun s hs => by cases hs; exact .of_async (by rw [hpan _ rfl]; decide)⟩)
+        | (cases h; exact ⟨by rw [hsp], by simp⟩)
+        | (obtain ⟨h1, _, _⟩ := inLoop_spec _ _ _ _ _ _ h
+           refine ⟨h1.trans (by rw [hsp]), fun s hs => ?_⟩
+           subst hs
+           exact inLoop_fuel h (by omega)))
+
+theorem setStream_request {p p' : Str.Parser} {st : Option Nat} (h : p.setStream st = .ok p') :
+    p'.request = p.request := by
+  rcases setStream_ok_cases h with ⟨_, rfl⟩ | ⟨_, rfl, _⟩ <;> rfl
+
+theorem writeablePoll_spec {r : AReq} {started : Bool} {m : MutexSt} {t : Transport}
+    {r' : AReq} {b : Bool} {m' : MutexSt} {t' : Transport} {res : ORes}
+    (h : r.writeablePoll started m t = (r', b, m', t', res)) :
+    r'.sp.request = r.sp.request ∧ (∀ s, res = .panic s → RealSite s) := by
+  simp only [AReq.writeablePoll] at h
+  split at h
+  · cases h; exact ⟨rfl, fun s hs => by cases hs⟩
+  · split at h
+    · cases h; exact ⟨rfl, fun s hs => by cases hs; exact .of_async (by decide)⟩
+    · rename_i r0 heq
+      have hr : r0.sp.request = r.sp.request := by
+        split at heq
+        · cases heq; rfl
+        · split at heq
+          · cases heq; exact setStream_request ‹_›
+          · cases heq
+      split at h
+      all_goals
+        obtain ⟨h1, h2⟩ := pollInput_spec ‹_›
+        cases h
+        exact ⟨h1.trans hr, fun s hs => by cases hs <;> exact h2 _ rfl⟩
+
+/-- what `record_boundary()`'s loop guarantees -/
+abbrev BoundarySpec (fuel : Nat) (sp : Str.Parser) (t : Transport) (sp' : Str.Parser) (t' : Transport) (res : ORes) : Prop :=
+  sp'.request = sp.request ∧ t'.wlog = t.wlog ∧
+  (t.input.length < fuel → ∀ s, res = .panic s → RealSite s) ∧
+  (res = .ready → sp'.isRecordBoundary = true)
+
+theorem boundaryCont_spec {n : Nat}
+    (ih : ∀ (sp : Str.Parser) (new : Bytes) (t : Transport) {sp' : Str.Parser} {t' : Transport} {res : ORes},
+      boundaryLoop n sp new t = (sp', t', res) → BoundarySpec n sp t sp' t' res)
+    {sp : Str.Parser} {t : Transport} {sp' : Str.Parser} {t' : Transport} {res : ORes}
+    (h : boundaryLoop.cont sp t n = (sp', t', res)) : BoundarySpec (n + 1) sp t sp' t' res := by
+  simp only [boundaryLoop.cont] at h
+  split at h
+  · cases h; exact ⟨rfl, rfl, fun _ s hs => (by cases hs), fun _ => ‹_›⟩
+  · split at h
+    · cases h
+      exact ⟨rfl, rfl, fun _ s hs => by cases hs; exact .of_async (by decide), fun hh => by cases hh⟩
+    · cases hrd : t.read sp.compress.free with
+      | mk t2 pr =>
+        rw [hrd] at h
+        have hw : t2.wlog = t.wlog := by have := read_wlog t sp.compress.free; rwa [hrd] at this
+        cases pr with
+        | pending => simp only at h; cases h; exact ⟨rfl, hw, fun _ s hs => (by cases hs), fun hh => by cases hh⟩
+        | ready ex =>
+          cases ex with
+          | error e => simp only at h; cases h; exact ⟨rfl, hw, fun _ s hs => (by cases hs), fun hh => by cases hh⟩
+          | ok bs =>
+            cases bs with
+            | nil => simp only at h; cases h; exact ⟨rfl, hw, fun _ s hs => (by cases hs), fun hh => by cases hh⟩
+            | cons b bs =>
+              simp only at h
+              obtain ⟨h1, h2, h3, h4⟩ := ih _ _ _ h
+              obtain ⟨hi, _, _⟩ := read_ok hrd
+              refine ⟨h1, h2.trans hw, fun hlt => h3 ?_, h4⟩
+              rw [hi] at hlt
+              simp only [List.length_append, List.length_cons] at hlt
+              omega
+
+theorem boundaryLoop_spec : ∀ (fuel : Nat) (sp : Str.Parser) (new : Bytes) (t : Transport)
+    {sp' : Str.Parser} {t' : Transport} {res : ORes},
+    boundaryLoop fuel sp new t = (sp', t', res) → BoundarySpec fuel sp t sp' t' res := by
+  intro fuel
+  induction fuel with
+  | zero =>
+    intro sp new t sp' t' res h; simp only [boundaryLoop] at h; cases h
+    exact ⟨rfl, rfl, by omega, fun hh => by cases hh⟩
+  | succ n ih =>
+    intro sp new t sp' t' res h
+    simp only [boundaryLoop] at h
+    cases hparse : sp.parse new none with
+    | mk sp1 pr =>
+      have hreq := parse_request_eq hparse
+      rw [hparse] at h
+      cases pr with
+      | panic s =>
+        simp only at h; cases h
+        exact ⟨hreq, rfl, fun _ s' hs => by cases hs; exact .of_str (parse_panic (by rw [hparse])),
+          fun hh => by cases hh⟩
+      | err e =>
+        simp only at h
+        split at h
+        · obtain ⟨h1, h2, h3, h4⟩ := boundaryCont_spec ih h
+          exact ⟨h1.trans hreq, h2, h3, h4⟩
+        · cases h; exact ⟨hreq, rfl, fun _ s hs => (by cases hs), fun hh => by cases hh⟩
+      | ok st =>
+        simp only at h
+        obtain ⟨h1, h2, h3, h4⟩ := boundaryCont_spec ih h
+        exact ⟨h1.trans hreq, h2, h3, h4⟩
+
+/-! ## `close`: phase specifications -/
+
+/-- phases 2–4 of `close` -/
+def closeFrom2 (r : AReq) (m : MutexSt) (t : Transport) (st : CloseSt) (status : ExitStatus) (alive : Nat) : CloseOut :=
+  match closeP2 r m t st with
+  | .error x => x
+  | .ok (r, m, t, st) =>
+    match closeP3 r m t st status alive with
+    | .error x => x
+    | .ok (r, m, t, st) => closeP4 r m t st
+
+theorem closePoll_eq' (r : AReq) (st : CloseSt) (status : ExitStatus) (alive : Nat) (m : MutexSt) (t : Transport) :
+    closePoll r st status alive m t =
+      match closeP1 r st m t with
+      | .error x => x
+      | .ok (r, m, t, st) => closeFrom2 r m t st status alive := rfl
+
+/-- the epilogue `close` sends for request state `r` -/
+def epilogueOf (r : AReq) (status : ExitStatus) : Bytes :=
+  makeRequestEpilogue r.sp.request.id status (if r.writeable then outputStreams r.sp.request.role else [])
+
+/-- bytes a suspended `close` still has to write -/
+def _root_.Fcgi.Async.CloseSt.owed : CloseSt → Bytes
+  | .writeOut rest endreq => rest ++ endreq
+  | .writeEnd rest => rest
+  | _ => []
+
+/-- `close` has passed the point where it builds the epilogue -/
+def _root_.Fcgi.Async.CloseSt.late : CloseSt → Bool
+  | .writeOut _ _ => true
+  | .writeEnd _ => true
+  | _ => false
+
+theorem closeP1_ok {r : AReq} {st : CloseSt} {m : MutexSt} {t : Transport} {r1 : AReq} {m1 : MutexSt}
+    {t1 : Transport} {st1 : CloseSt} (h : closeP1 r st m t = .ok (r1, m1, t1, st1)) :
+    r1.sp.request = r.sp.request ∧
+    ((st = .start ∨ st = .inWriteable) ∧ st1 = .start ∨
+     (st.late = true ∨ st = .inBoundary) ∧ st1 = st ∧ r1 = r ∧ m1 = m ∧ t1 = t) := by
+  simp only [closeP1] at h
+  repeat' (split at h)
+  all_goals first
+    | (obtain ⟨h1, _⟩ := writeablePoll_spec ‹_›
+       cases h; exact ⟨h1, Or.inl ⟨by simp, rfl⟩⟩)
+    | (cases h; cases st <;> simp_all [CloseSt.late])
+    | cases h
+
+theorem closeP1_error {r : AReq} {st : CloseSt} {m : MutexSt} {t : Transport} {r' : AReq} {cs' : CloseSt}
+    {m' : MutexSt} {t' : Transport} {res : CRes} (h : closeP1 r st m t = .error (r', cs', m', t', res)) :
+    cs' = .inWriteable ∧ (st = .start ∨ st = .inWriteable) ∧
+    (res = .pending ∨ (∃ e, res = .err e ∧ e ≠ .connectionAborted) ∨ ∃ s, res = .panic s ∧ RealSite s) := by
+  simp only [closeP1] at h
+  repeat' (split at h)
+  all_goals first
+    | (obtain ⟨_, h2⟩ := writeablePoll_spec ‹_›
+       cases h
+       refine ⟨rfl, by simp, ?_⟩
+       first
+        | exact Or.inl rfl
+        | exact Or.inr (Or.inl ⟨_, rfl, by simpa using ‹¬ (_ == IoErr.connectionAborted) = true›⟩)
+        | exact Or.inr (Or.inr ⟨_, rfl, h2 _ rfl⟩))
+    | cases h
+
+theorem closeBoundary_spec {sp : Str.Parser} {resume : Bool} {t : Transport}
+    {sp' : Str.Parser} {t' : Transport} {res : ORes}
+    (h : closeBoundary sp resume t = (sp', t', res)) :
+    sp'.request = sp.request ∧ t'.wlog = t.wlog ∧ (∀ s, res = .panic s → RealSite s) ∧
+    (res = .ready → sp'.isRecordBoundary = true) := by
+  simp only [closeBoundary] at h
+  split at h
+  · cases hrd : t.read sp.free with
+    | mk t2 pr =>
+      rw [hrd] at h
+      have hw : t2.wlog = t.wlog := by have := read_wlog t sp.free; rwa [hrd] at this
+      cases pr with
+      | pending => simp only at h; cases h; exact ⟨rfl, hw, by simp, by simp⟩
+      | ready ex =>
+        cases ex with
+        | error e => simp only at h; cases h; exact ⟨rfl, hw, by simp, by simp⟩
+        | ok bs =>
+          cases bs with
+          | nil => simp only at h; cases h; exact ⟨rfl, hw, by simp, by simp⟩
+          | cons b bs =>
+            simp only at h
+            obtain ⟨h1, h2, h3, h4⟩ := boundaryLoop_spec _ _ _ _ h
+            exact ⟨h1, h2.trans hw, h3 (by omega), h4⟩
+  · split at h
+    · cases h; exact ⟨rfl, rfl, by simp, fun _ => ‹_›⟩
+    · obtain ⟨h1, h2, h3, h4⟩ := boundaryLoop_spec _ _ _ _ h
+      exact ⟨h1, h2, h3 (by omega), h4⟩
+
+/-- `set_stream(None)` always succeeds -/
+def spIgnore (sp : Str.Parser) : Str.Parser := if sp.stream = none then sp else sp.switchTo none
+
+theorem spIgnore_request (sp : Str.Parser) : (spIgnore sp).request = sp.request := by
+  unfold spIgnore; split <;> rfl
+
+/-- the tail of phase 2 -/
+def closeP2Tail (r : AReq) (m : MutexSt) (x : Str.Parser × Transport × ORes) : Except CloseOut CloseMid :=
+  match x with
+  | (sp, t, .ready) => .ok ({ r with sp := sp }, m, t, .start)
+  | (sp, t, .pending) => .error ({ r with sp := sp }, .inBoundary, m, t, .pending)
+  | (sp, t, .err e) => .error ({ r with sp := sp }, .inBoundary, m, t, .err e)
+  | (sp, t, .panic s) => .error ({ r with sp := sp }, .inBoundary, m, t, .panic s)
+
+theorem closeP2_start (r : AReq) (m : MutexSt) (t : Transport) :
+    closeP2 r m t .start = closeP2Tail r m (closeBoundary (spIgnore r.sp) false t) := by
+  simp only [closeP2, setStream_none]
+  rfl
+
+theorem closeP2_inBoundary (r : AReq) (m : MutexSt) (t : Transport) :
+    closeP2 r m t .inBoundary = closeP2Tail r m (closeBoundary r.sp true t) := by
+  simp only [closeP2]
+  rfl
+
+theorem closeP2_other (r : AReq) (m : MutexSt) (t : Transport) (st : CloseSt)
+    (h : st.late = true ∨ st = .inWriteable) : closeP2 r m t st = .ok (r, m, t, st) := by
+  cases st <;> first | rfl | simp [CloseSt.late] at h
+
+theorem closeP2Tail_ok {r : AReq} {m : MutexSt} {sp0 : Str.Parser} {resume : Bool} {t : Transport}
+    {r2 : AReq} {m2 : MutexSt} {t2 : Transport} {st2 : CloseSt}
+    (h : closeP2Tail r m (closeBoundary sp0 resume t) = .ok (r2, m2, t2, st2)) :
+    r2.sp.request = sp0.request ∧ r2.writeable = r.writeable ∧ r2.lock = r.lock ∧ m2 = m ∧
+    t2.wlog = t.wlog ∧ st2 = .start ∧ r2.sp.isRecordBoundary = true := by
+  cases hb : closeBoundary sp0 resume t with
+  | mk sp x =>
+    obtain ⟨t1, res⟩ := x
+    obtain ⟨h1, h2, _, h4⟩ := closeBoundary_spec hb
+    rw [hb] at h
+    cases res <;> simp only [closeP2Tail] at h <;> cases h
+    exact ⟨h1, rfl, rfl, rfl, h2, rfl, h4 rfl⟩
+
+theorem closeP2Tail_error {r : AReq} {m : MutexSt} {sp0 : Str.Parser} {resume : Bool} {t : Transport}
+    {r' : AReq} {cs' : CloseSt} {m' : MutexSt} {t' : Transport} {res : CRes}
+    (h : closeP2Tail r m (closeBoundary sp0 resume t) = .error (r', cs', m', t', res)) :
+    t'.wlog = t.wlog ∧ cs' = .inBoundary ∧ m' = m ∧
+    (res = .pending ∨ (∃ e, res = .err e) ∨ ∃ s, res = .panic s ∧ RealSite s) := by
+  cases hb : closeBoundary sp0 resume t with
+  | mk sp x =>
+    obtain ⟨t1, ores⟩ := x
+    obtain ⟨_, h2, h3, _⟩ := closeBoundary_spec hb
+    rw [hb] at h
+    cases ores <;> simp only [closeP2Tail] at h <;> cases h
+    · exact ⟨h2, rfl, rfl, Or.inl rfl⟩
+    · exact ⟨h2, rfl, rfl, Or.inr (Or.inl ⟨_, rfl⟩)⟩
+    · exact ⟨h2, rfl, rfl, Or.inr (Or.inr ⟨_, rfl, h3 _ rfl⟩)⟩
+
+theorem closeP2_ok {r : AReq} {st : CloseSt} {m : MutexSt} {t : Transport} {r2 : AReq} {m2 : MutexSt}
+    {t2 : Transport} {st2 : CloseSt} (h : closeP2 r m t st = .ok (r2, m2, t2, st2)) :
+    r2.sp.request = r.sp.request ∧ r2.writeable = r.writeable ∧ r2.lock = r.lock ∧ m2 = m ∧
+    t2.wlog = t.wlog ∧
+    ((st = .start ∨ st = .inBoundary) ∧ st2 = .start ∧ r2.sp.isRecordBoundary = true ∨
+     (st.late = true ∨ st = .inWriteable) ∧ st2 = st ∧ r2 = r ∧ t2 = t) := by
+  cases st with
+  | start =>
+    rw [closeP2_start] at h
+    obtain ⟨h1, h2, h3, h4, h5, h6, h7⟩ := closeP2Tail_ok h
+    exact ⟨h1.trans (spIgnore_request _), h2, h3, h4, h5, Or.inl ⟨Or.inl rfl, h6, h7⟩⟩
+  | inBoundary =>
+    rw [closeP2_inBoundary] at h
+    obtain ⟨h1, h2, h3, h4, h5, h6, h7⟩ := closeP2Tail_ok h
+    exact ⟨h1, h2, h3, h4, h5, Or.inl ⟨Or.inr rfl, h6, h7⟩⟩
+  | inWriteable =>
+    rw [closeP2_other _ _ _ _ (Or.inr rfl)] at h; cases h
+    exact ⟨rfl, rfl, rfl, rfl, rfl, Or.inr ⟨Or.inr rfl, rfl, rfl, rfl⟩⟩
+  | writeOut a b =>
+    rw [closeP2_other _ _ _ _ (Or.inl rfl)] at h; cases h
+    exact ⟨rfl, rfl, rfl, rfl, rfl, Or.inr ⟨Or.inl rfl, rfl, rfl, rfl⟩⟩
+  | writeEnd a =>
+    rw [closeP2_other _ _ _ _ (Or.inl rfl)] at h; cases h
+    exact ⟨rfl, rfl, rfl, rfl, rfl, Or.inr ⟨Or.inl rfl, rfl, rfl, rfl⟩⟩
+
+theorem closeP2_error {r : AReq} {st : CloseSt} {m : MutexSt} {t : Transport} {r' : AReq} {cs' : CloseSt}
+    {m' : MutexSt} {t' : Transport} {res : CRes} (h : closeP2 r m t st = .error (r', cs', m', t', res)) :
+    t'.wlog = t.wlog ∧ (st = .start ∨ st = .inBoundary) ∧ cs' = .inBoundary ∧ m' = m ∧
+    (res = .pending ∨ (∃ e, res = .err e) ∨ ∃ s, res = .panic s ∧ RealSite s) := by
+  cases st with
+  | start =>
+    rw [closeP2_start] at h
+    obtain ⟨h1, h2, h3, h4⟩ := closeP2Tail_error h
+    exact ⟨h1, Or.inl rfl, h2, h3, h4⟩
+  | inBoundary =>
+    rw [closeP2_inBoundary] at h
+    obtain ⟨h1, h2, h3, h4⟩ := closeP2Tail_error h
+    exact ⟨h1, Or.inr rfl, h2, h3, h4⟩
+  | inWriteable => rw [closeP2_other _ _ _ _ (Or.inr rfl)] at h; cases h
+  | writeOut a b => rw [closeP2_other _ _ _ _ (Or.inl rfl)] at h; cases h
+  | writeEnd a => rw [closeP2_other _ _ _ _ (Or.inl rfl)] at h; cases h
+
+theorem closeP3_start (r : AReq) (m : MutexSt) (t : Transport) (status : ExitStatus) (alive : Nat) :
+    closeP3 r m t .start status alive =
+      if alive > 0 then .error ({ r with lock := .none }, .start, lockDrop r.lock m, t, .err .writersAlive)
+      else .ok ({ r with lock := .none }, lockDrop r.lock m, t, .writeOut r.sp.output (epilogueOf r status)) := rfl
+
+theorem closeP3_late (r : AReq) (m : MutexSt) (t : Transport) (st : CloseSt) (status : ExitStatus) (alive : Nat)
+    (h : st.late = true) : closeP3 r m t st status alive = .ok (r, m, t, st) := by
+  cases st <;> first | rfl | cases h
+
+/-- what `close` answers once both `write_all`s completed -/
+def closeDecision (r : AReq) : CRes :=
+  if r.sp.request.flags.toNat % 2 == 1 then
+    match r.sp.intoRequestParser with
+    | some (.ok rp) => .reuse rp
+    | some (.error e) => .err (ioOfPErr e)
+    | none => .panic "stream.rs:552 output_buffer must be fully consumed"
+  else .err .connectionReset
+
+theorem writeV_err_kind (t : Transport) (sl : List Bytes) (tag : String) (e : IoErr)
+    (h : (t.writeV sl tag).2 = .ready (.error e)) : e = .transportWrite := by
+  unfold Transport.writeV at h
+  generalize sl.flatten = data at h
+  by_cases hd : data.isEmpty = true
+  · simp [hd] at h
+  · simp only [hd, Bool.false_eq_true, if_false] at h
+    cases hwr : t.wr with
+    | nil => simp [hwr] at h
+    | cons a rest => cases a <;> simp [hwr] at h <;> exact h.symm
+
+theorem write_err_kind {t t' : Transport} {buf : Bytes} {e : IoErr}
+    (h : t.write buf = (t', .ready (.error e))) : e = .transportWrite := by
+  apply writeV_err_kind t [buf] "W" e
+  unfold Transport.write at h; rw [h]
+
+theorem writeAllLoop_err : ∀ (fuel : Nat) (buf : Bytes) (t : Transport) {rest : Bytes} {t' : Transport} {e : IoErr},
+    writeAllLoop fuel buf t = (rest, t', .err e) → e = .transportWrite ∨ e = .writeZero := by
+  intro fuel
+  induction fuel with
+  | zero => intro buf t rest t' e h; simp only [writeAllLoop] at h; cases h
+  | succ k ih =>
+    intro buf t rest t' e h
+    simp only [writeAllLoop] at h
+    repeat' (split at h)
+    all_goals first
+      | (cases h; exact Or.inl (write_err_kind ‹_›))
+      | (cases h; exact Or.inr rfl)
+      | exact ih _ _ h
+      | cases h
+
+/-- a write failure of the transport -/
+def WriteFail (res : CRes) : Prop := res = .err .transportWrite ∨ res = .err .writeZero
+
+theorem finishEnd_spec {r : AReq} {rest : Bytes} {m : MutexSt} {t : Transport}
+    {r' : AReq} {cs' : CloseSt} {m' : MutexSt} {t' : Transport} {res : CRes}
+    (h : closePoll.finishEnd r rest m t = (r', cs', m', t', res)) :
+    r' = r ∧ m' = m ∧ ∃ done rest', cs' = .writeEnd rest' ∧ rest = done ++ rest' ∧ t'.wlog = t.wlog ++ done ∧
+      t'.input = t.input ∧
+      ((rest' = [] ∧ res = closeDecision r) ∨ (res = .pending ∧ rest' ≠ []) ∨ WriteFail res) := by
+  simp only [closePoll.finishEnd] at h
+  cases hw : writeAllLoop (rest.length + 1) rest t with
+  | mk rest' x =>
+    obtain ⟨t1, ores⟩ := x
+    obtain ⟨⟨done, hd, hl⟩, hin, hr, hf⟩ := writeAllLoop_spec _ _ _ hw
+    rw [hw] at h
+    cases ores with
+    | pending =>
+      simp only at h; cases h
+      refine ⟨rfl, rfl, done, rest', rfl, hd, hl, hin, Or.inr (Or.inl ⟨rfl, ?_⟩)⟩
+      -- a pending `write_all` has bytes left
+      intro hnil
+      subst hnil
+      have : ∀ (fuel : Nat) (buf : Bytes) (t : Transport) {t' : Transport},
+          writeAllLoop fuel buf t = ([], t', .pending) → False := by
+        intro fuel
+        induction fuel with
+        | zero => intro buf t t' h; simp only [writeAllLoop] at h; cases h
+        | succ k ih =>
+          intro buf t t' h
+          simp only [writeAllLoop] at h
+          repeat' (split at h)
+          all_goals first
+            | (cases h; simp_all; done)
+            | exact ih _ _ h
+            | cases h
+      exact this _ _ _ hw
+    | err e =>
+      simp only at h; cases h
+      refine ⟨rfl, rfl, done, rest', rfl, hd, hl, hin, Or.inr (Or.inr ?_)⟩
+      rcases writeAllLoop_err _ _ _ hw with rfl | rfl
+      · exact Or.inl rfl
+      · exact Or.inr rfl
+    | panic s => exact absurd rfl (hf (by omega) s)
+    | ready =>
+      simp only at h
+      have hr' := hr rfl
+      subst hr'
+      refine ⟨?_, ?_, done, [], ?_, hd, ?_, ?_, Or.inl ⟨rfl, ?_⟩⟩
+      all_goals
+        try unfold closeDecision
+        repeat' (split at h)
+        all_goals first
+          | (cases h; first | rfl | exact hl | exact hin | simp_all)
+          | skip
+
+theorem writeAllLoop_pending_ne : ∀ (fuel : Nat) (buf : Bytes) (t : Transport) {t' : Transport},
+    writeAllLoop fuel buf t = ([], t', .pending) → False := by
+  intro fuel
+  induction fuel with
+  | zero => intro buf t t' h; simp only [writeAllLoop] at h; cases h
+  | succ k ih =>
+    intro buf t t' h
+    simp only [writeAllLoop] at h
+    repeat' (split at h)
+    all_goals first
+      | (cases h; simp_all; done)
+      | exact ih _ _ h
+      | cases h
+
+/-- invariant of a suspended `close` that has built its epilogue: the parser stands at a record
+boundary (and, once the parser's output was written, its output buffer is empty) -/
+def CloseInv (r : AReq) : CloseSt → Prop
+  | .writeOut _ _ => r.sp.isRecordBoundary = true
+  | .writeEnd _ => r.sp.isRecordBoundary = true ∧ r.sp.output = []
+  | _ => True
+
+theorem closeDecision_of_inv {r : AReq} (hb : r.sp.isRecordBoundary = true) (ho : r.sp.output = []) :
+    closeDecision r =
+      if r.sp.request.flags.toNat % 2 = 1 then .reuse (Req.Parser.fromParser r.sp.cap r.sp.raw r.sp.maxConns)
+      else .err .connectionReset := by
+  unfold closeDecision Str.Parser.intoRequestParser
+  simp [hb, ho]
+
+/-- Phase 4 (one poll): exactly a prefix of the owed bytes is written, the rest stays owed; the
+future completes only when nothing is owed any more, and then answers `closeDecision`. -/
+theorem closeP4_spec {r : AReq} {st : CloseSt} {m : MutexSt} {t : Transport}
+    {r' : AReq} {cs' : CloseSt} {m' : MutexSt} {t' : Transport} {res : CRes}
+    (h : closeP4 r m t st = (r', cs', m', t', res)) (hl : st.late = true) :
+    m' = m ∧ r'.sp.request = r.sp.request ∧ r'.writeable = r.writeable ∧ cs'.late = true ∧
+    t'.input = t.input ∧
+    (∃ done, st.owed = done ++ cs'.owed ∧ t'.wlog = t.wlog ++ done) ∧
+    ((cs' = .writeEnd [] ∧ res = closeDecision r') ∨ (res = .pending ∧ cs'.owed ≠ []) ∨ WriteFail res) ∧
+    (CloseInv r st → CloseInv r' cs') := by
+  cases st with
+  | start => cases hl
+  | inWriteable => cases hl
+  | inBoundary => cases hl
+  | writeEnd rest =>
+    simp only [closeP4] at h
+    obtain ⟨rfl, rfl, done, rest', rfl, hd, hw, hi, hres⟩ := finishEnd_spec h
+    refine ⟨rfl, rfl, rfl, rfl, hi, ⟨done, hd, hw⟩, ?_, id⟩
+    rcases hres with ⟨rfl, hx⟩ | hx | hx
+    · exact Or.inl ⟨rfl, hx⟩
+    · exact Or.inr (Or.inl hx)
+    · exact Or.inr (Or.inr hx)
+  | writeOut rest endreq =>
+    simp only [closeP4] at h
+    cases hw : writeAllLoop (rest.length + 1) rest t with
+    | mk rest' x =>
+      obtain ⟨t1, ores⟩ := x
+      obtain ⟨⟨done, hd, hl1⟩, hin, hr, hf⟩ := writeAllLoop_spec _ _ _ hw
+      rw [hw] at h
+      cases ores with
+      | pending =>
+        simp only at h; cases h
+        refine ⟨rfl, rfl, rfl, rfl, hin, ⟨done, ?_, hl1⟩, Or.inr (Or.inl ⟨rfl, ?_⟩), id⟩
+        · simp only [CloseSt.owed]; rw [hd, List.append_assoc]
+        · simp only [CloseSt.owed]
+          intro hnil
+          have : rest' = [] := by
+            have := congrArg List.length hnil; simp at this; exact this.1
+          subst this
+          exact writeAllLoop_pending_ne _ _ _ hw
+      | err e =>
+        simp only at h; cases h
+        refine ⟨rfl, rfl, rfl, rfl, hin, ⟨done, ?_, hl1⟩, Or.inr (Or.inr ?_), id⟩
+        · simp only [CloseSt.owed]; rw [hd, List.append_assoc]
+        · rcases writeAllLoop_err _ _ _ hw with rfl | rfl
+          · exact Or.inl rfl
+          · exact Or.inr rfl
+      | panic s => exact absurd rfl (hf (by omega) s)
+      | ready =>
+        simp only at h
+        have hr' := hr rfl
+        subst hr'
+        obtain ⟨rfl, rfl, done2, rest2, rfl, hd2, hw2, hi2, hres⟩ := finishEnd_spec h
+        have hres' : (CloseSt.writeEnd rest2 = .writeEnd [] ∧ res = closeDecision
+              { sp := r.sp.consumeOutput (List.length r.sp.output), lock := r.lock, writeable := r.writeable }) ∨
+            (res = .pending ∧ (CloseSt.writeEnd rest2).owed ≠ []) ∨ WriteFail res := by
+          rcases hres with ⟨rfl, hx⟩ | hx | hx
+          · exact Or.inl ⟨rfl, hx⟩
+          · exact Or.inr (Or.inl hx)
+          · exact Or.inr (Or.inr hx)
+        refine ⟨rfl, rfl, rfl, rfl, hi2.trans hin, ⟨done ++ done2, ?_, ?_⟩, hres', ?_⟩
+        · simp only [CloseSt.owed]
+          rw [hd, hd2]; simp
+        · rw [hw2, hl1, List.append_assoc]
+        · intro hinv
+          exact ⟨hinv, by simp [Str.Parser.consumeOutput]⟩
+
+/-- phases 3–4 entered from the record boundary -/
+def closeFrom3 (r : AReq) (m : MutexSt) (t : Transport) (status : ExitStatus) (alive : Nat) : CloseOut :=
+  match closeP3 r m t .start status alive with
+  | .error x => x
+  | .ok (r, m, t, st) => closeP4 r m t st
+
+theorem closeFrom2_late (r : AReq) (m : MutexSt) (t : Transport) (st : CloseSt) (status : ExitStatus)
+    (alive : Nat) (h : st.late = true) : closeFrom2 r m t st status alive = closeP4 r m t st := by
+  unfold closeFrom2
+  rw [closeP2_other _ _ _ _ (Or.inl h)]
+  simp only [closeP3_late _ _ _ _ _ _ h]
+
+theorem closePoll_late (r : AReq) (st : CloseSt) (status : ExitStatus) (alive : Nat) (m : MutexSt)
+    (t : Transport) (h : st.late = true) : closePoll r st status alive m t = closeP4 r m t st := by
+  rw [closePoll_eq']
+  have : closeP1 r st m t = .ok (r, m, t, st) := by cases st <;> first | rfl | cases h
+  rw [this]
+  exact closeFrom2_late _ _ _ _ _ _ h
+
+/-- `writers` still alive: `close` fails before writing anything of the epilogue. -/
+theorem closeFrom3_alive (r : AReq) (m : MutexSt) (t : Transport) (status : ExitStatus) (alive : Nat)
+    (h : 0 < alive) :
+    closeFrom3 r m t status alive = ({ r with lock := .none }, .start, lockDrop r.lock m, t, .err .writersAlive) := by
+  unfold closeFrom3
+  rw [closeP3_start]
+  simp [h]
+
+theorem closeFrom3_spec {r : AReq} {m : MutexSt} {t : Transport} {status : ExitStatus}
+    {r' : AReq} {cs' : CloseSt} {m' : MutexSt} {t' : Transport} {res : CRes}
+    (h : closeFrom3 r m t status 0 = (r', cs', m', t', res)) (hb : r.sp.isRecordBoundary = true) :
+    r'.sp.request = r.sp.request ∧ r'.writeable = r.writeable ∧ cs'.late = true ∧ t'.input = t.input ∧
+    (∃ done, r.sp.output ++ epilogueOf r status = done ++ cs'.owed ∧ t'.wlog = t.wlog ++ done) ∧
+    ((cs' = .writeEnd [] ∧ res = closeDecision r') ∨ (res = .pending ∧ cs'.owed ≠ []) ∨ WriteFail res) ∧
+    CloseInv r' cs' := by
+  unfold closeFrom3 at h
+  rw [closeP3_start] at h
+  simp only [Nat.lt_irrefl, if_false] at h
+  obtain ⟨_, h2, h3, h4, h5, h6, h7, h8⟩ := closeP4_spec h rfl
+  exact ⟨h2, h3, h4, h5, h6, h7, h8 hb⟩
+
+/-! ## `StreamWriter` fuel -/
+
+theorem writeLoop_fuel : ∀ (fuel : Nat) (w : Writer) (head buf : Bytes) (t : Transport)
+    {w' : Writer} {t' : Transport} {s : String},
+    writeLoop fuel w head buf t = (w', t', .panic s) →
+    (head.length - w.headIdx) + w.contentLen + w.padLen < fuel →
+    s = "async_io:85 payload_idx underflow" ∨ s = "async_io:112 transport accepted more than offered" := by
+  intro fuel
+  induction fuel with
+  | zero => intro w head buf t w' t' s h hf; omega
+  | succ k ih =>
+    intro w head buf t w' t' s h hf
+    simp only [writeLoop] at h
+    split at h
+    · cases h
+    · split at h
+      · cases h; exact Or.inl rfl
+      · rename_i hwr hle
+        split at h
+        · cases h
+        · cases h
+        · cases h
+        · rename_i t1 written hne hwv
+          split at h
+          · cases h; exact Or.inr rfl
+          · rename_i hz
+            refine ih _ _ _ _ h ?_
+            have hnz : written ≠ 0 := fun h0 => hne (by rw [h0])
+            simp only [List.length_drop, zeros, List.length_replicate] at hz ⊢
+            omega
+
+theorem headBytes_length (w : Writer) : w.headBytes.length = 8 := by
+  simp [Writer.headBytes, RecordHeader.toBytes, toBe16]
+
+theorem pollWrite_panic {w : Writer} {me : Nat} {buf : Bytes} {m : MutexSt} {t : Transport}
+    {w' : Writer} {m' : MutexSt} {t' : Transport} {s : String}
+    (h : w.pollWrite me buf m t = (w', m', t', .panic s)) : RealSite s := by
+  simp only [Writer.pollWrite] at h
+  repeat' (split at h)
+  all_goals first
+    | (cases h; exact .of_async (by decide))
+    | (cases h
+       have := writeLoop_fuel _ _ _ _ _ ‹writeLoop _ _ _ _ _ = _› (by simp only [headBytes_length]; omega)
+       rcases this with rfl | rfl <;> exact .of_async (by decide))
+    | (cases h
+       have hs := ‹_ = Except.error s›
+       split at hs
+       · split at hs
+         · cases hs; exact .of_async (by decide)
+         · cases hs
+       · cases hs)
+    | cases h
+
+theorem pollFlush_panic {w : Writer} {me : Nat} {m : MutexSt} {t : Transport}
+    {w' : Writer} {m' : MutexSt} {t' : Transport} {s : String}
+    (h : w.pollFlush me m t = (w', m', t', .panic s)) : RealSite s := by
+  simp only [Writer.pollFlush] at h
+  repeat' (split at h)
+  all_goals first
+    | (cases h; exact .of_async (by decide))
+    | cases h
+
+/-! ## Handler-interpreter fuel (scripts without `readAll`) -/
+
+def opCost : HOp → Nat
+  | .writeAll _ data => data.length + 1
+  | _ => 1
+
+def curCost (sub : HSub) (op : HOp) : Nat :=
+  match sub, op with
+  | .writeRest rd, .writeAll _ _ => rd.length + 1
+  | _, op => opCost op
+
+/-- fuel a script needs: one unit per op, plus one per byte of a `writeAll` -/
+def scriptCost (h : HState) : Nat :=
+  match h.ops with
+  | [] => 0
+  | op :: rest => curCost h.sub op + (rest.map opCost).sum
+
+def noReadAll (ops : List HOp) : Prop := ∀ op ∈ ops, op ≠ .readAll
+
+theorem curCost_fresh (op : HOp) : curCost .fresh op = opCost op := by cases op <;> rfl
+
+theorem scriptCost_fresh (ops : List HOp) (w : List (Option Writer)) (p : Bool) :
+    scriptCost { ops := ops, sub := .fresh, writers := w, propagate := p } = (ops.map opCost).sum := by
+  cases ops with
+  | nil => rfl
+  | cons op rest => simp [scriptCost, curCost_fresh]
+
+theorem curCost_pos (sub : HSub) (op : HOp) : 0 < curCost sub op := by
+  cases sub <;> cases op <;> simp [curCost, opCost]
+
+theorem handlerPoll_fuel : ∀ (fuel : Nat) (r : AReq) (h : HState) (e : Env)
+    {r' : AReq} {h' : HState} {e' : Env} {s : String},
+    handlerPoll fuel r h e = (r', h', e', .panic s) → noReadAll h.ops → scriptCost h < fuel → RealSite s := by
+  intro fuel
+  induction fuel with
+  | zero => intro r h e r' h' e' s hh _ hf; omega
+  | succ n ih =>
+    intro r h e r' h' e' s hh hnr hf
+    simp only [handlerPoll] at hh
+    split at hh
+    · cases hh
+    · rename_i op rest hops
+      have hnr' : noReadAll rest := fun o ho => hnr o (by rw [hops]; exact List.mem_cons_of_mem _ ho)
+      have hcost : ∀ (w : List (Option Writer)),
+          scriptCost { ops := rest, sub := .fresh, writers := w, propagate := h.propagate } < n := by
+        intro w
+        rw [scriptCost_fresh]
+        simp only [scriptCost, hops] at hf
+        have := curCost_pos h.sub op
+        omega
+      have hne : op ≠ .readAll := hnr op (by rw [hops]; exact List.mem_cons_self)
+      repeat' (split at hh)
+      all_goals first
+        | (exact absurd rfl hne)
+        | (cases hh; done)
+        | (cases hh; exact .of_async (by decide))
+        | (cases hh; exact (pollInput_spec ‹_›).2 _ rfl)
+        | (cases hh; exact (writeablePoll_spec ‹_›).2 _ rfl)
+        | (cases hh; exact pollWrite_panic ‹_›)
+        | (cases hh; exact pollFlush_panic ‹_›)
+        | exact ih _ _ _ hh hnr' (hcost _)
+        | skip
+      · refine ih _ _ _ hh hnr ?_
+        rename_i nn hn0 _
+        have hn0' : nn ≠ 0 := hn0
+        have hsub := ‹h.sub = HSub.writeRest _›
+        have hlen : ∀ l : Bytes, ¬ l.isEmpty = true → l.length ≠ 0 := by
+          intro l hl h0; exact hl (by simp [List.length_eq_zero_iff.1 h0])
+        have := hlen _ ‹_›
+        simp only [scriptCost, hops, hsub, curCost, List.length_drop] at hf ⊢
+        omega
+      · refine ih _ _ _ hh hnr ?_
+        rename_i i data _ _ _ _ hnsub _ _ _ _ _ nn hn0 _
+        have hn0' : nn ≠ 0 := hn0
+        have hsub : curCost h.sub (HOp.writeAll i data) = opCost (HOp.writeAll i data) := by
+          cases hs : h.sub with
+          | writeRest rd => exact absurd hs (hnsub rd)
+          | _ => rfl
+        have hlen : ∀ l : Bytes, ¬ l.isEmpty = true → l.length ≠ 0 := by
+          intro l hl h0; exact hl (by simp [List.length_eq_zero_iff.1 h0])
+        have := hlen _ ‹_›
+        simp only [scriptCost, hops, hsub, opCost] at hf
+        simp only [scriptCost, hops, curCost, List.length_drop]
+        omega
+
+/-- How one poll of `close` runs: stopped by `writeable()`, stopped by `record_boundary()`, or —
+from the record-boundary state `r2` — through the epilogue phases; a `close` that already built its
+epilogue just continues writing. -/
+theorem closePoll_cases {r : AReq} {st : CloseSt} {status : ExitStatus} {alive : Nat} {m : MutexSt}
+    {t : Transport} {out : CloseOut} (h : closePoll r st status alive m t = out) :
+    (st.late = false ∧ closeP1 r st m t = .error out) ∨
+    (st.late = false ∧ ∃ r1 m1 t1 st1, closeP1 r st m t = .ok (r1, m1, t1, st1) ∧
+      closeP2 r1 m1 t1 st1 = .error out) ∨
+    (st.late = false ∧ ∃ r1 m1 t1 st1 r2 m2 t2, closeP1 r st m t = .ok (r1, m1, t1, st1) ∧
+      closeP2 r1 m1 t1 st1 = .ok (r2, m2, t2, .start) ∧ r2.sp.isRecordBoundary = true ∧
+      closeFrom3 r2 m2 t2 status alive = out) ∨
+    (st.late = true ∧ closeP4 r m t st = out) := by
+  by_cases hl : st.late = true
+  · exact Or.inr (Or.inr (Or.inr ⟨hl, by rw [← h, closePoll_late _ _ _ _ _ _ hl]⟩))
+  · have hl' : st.late = false := by simpa using hl
+    rw [closePoll_eq'] at h
+    cases h1 : closeP1 r st m t with
+    | error x => rw [h1] at h; exact Or.inl ⟨hl', by rw [← h]⟩
+    | ok y =>
+      obtain ⟨r1, m1, t1, st1⟩ := y
+      rw [h1] at h
+      simp only at h
+      have hst1 : st1 = .start ∨ st1 = .inBoundary := by
+        rcases (closeP1_ok h1).2 with ⟨_, h⟩ | ⟨h, h', _⟩
+        · exact Or.inl h
+        · rcases h with h | h
+          · rw [hl'] at h; cases h
+          · exact Or.inr (h' ▸ h)
+      unfold closeFrom2 at h
+      cases h2 : closeP2 r1 m1 t1 st1 with
+      | error x => rw [h2] at h; simp only at h; exact Or.inr (Or.inl ⟨hl', r1, m1, t1, st1, rfl, by rw [← h]; exact h2⟩)
+      | ok z =>
+        obtain ⟨r2, m2, t2, st2⟩ := z
+        rw [h2] at h
+        simp only at h
+        have hst2 : st2 = .start ∧ r2.sp.isRecordBoundary = true := by
+          rcases (closeP2_ok h2).2.2.2.2.2 with ⟨_, h, hb⟩ | ⟨h, _⟩
+          · exact ⟨h, hb⟩
+          · rcases hst1 with rfl | rfl <;> simp [CloseSt.late] at h
+        obtain ⟨rfl, hb⟩ := hst2
+        exact Or.inr (Or.inr (Or.inl ⟨hl', r1, m1, t1, st1, r2, m2, t2, rfl, h2, hb, h⟩))
+
+theorem closeDecision_panic {r : AReq} {s : String} (h : closeDecision r = .panic s) :
+    s = "stream.rs:552 output_buffer must be fully consumed" := by
+  unfold closeDecision at h
+  repeat' (split at h)
+  all_goals first | (cases h; rfl) | cases h
+
+/-- `close` never reports a fuel guard (nor the model's "unreachable" state). -/
+theorem closePoll_panic {r : AReq} {st : CloseSt} {status : ExitStatus} {alive : Nat} {m : MutexSt}
+    {t : Transport} {r' : AReq} {cs' : CloseSt} {m' : MutexSt} {t' : Transport} {s : String}
+    (h : closePoll r st status alive m t = (r', cs', m', t', .panic s)) :
+    RealSite s := by
+  have key : ∀ {res : CRes}, ((cs' = .writeEnd [] ∧ res = closeDecision r') ∨ (res = .pending ∧ cs'.owed ≠ []) ∨
+      WriteFail res) → res = .panic s → RealSite s := by
+    intro res hres hp
+    subst hp
+    rcases hres with ⟨_, hd⟩ | ⟨hd, _⟩ | hd
+    · rw [closeDecision_panic hd.symm]; exact .of_async (by decide)
+    · cases hd
+    · rcases hd with hd | hd <;> cases hd
+  rcases closePoll_cases h with ⟨_, h1⟩ | ⟨_, r1, m1, t1, st1, _, h2⟩ | ⟨_, r1, m1, t1, st1, r2, m2, t2, _, _, hb, h3⟩ | ⟨hl, h4⟩
+  · rcases (closeP1_error h1).2.2 with hp | ⟨e, hp, _⟩ | ⟨s', hp, hs⟩
+    · cases hp
+    · cases hp
+    · cases hp; exact hs
+  · rcases (closeP2_error h2).2.2.2.2 with hp | ⟨e, hp⟩ | ⟨s', hp, hs⟩
+    · cases hp
+    · cases hp
+    · cases hp; exact hs
+  · by_cases ha : 0 < alive
+    · rw [closeFrom3_alive _ _ _ _ _ ha] at h3; cases h3
+    · have : alive = 0 := by omega
+      subst this
+      exact key (closeFrom3_spec h3 hb).2.2.2.2.2.1 rfl
+  · exact key (closeP4_spec h4 hl).2.2.2.2.2.2.1 rfl
+
+theorem RealSite.not_unreachable {s : String} (h : RealSite s) : s ≠ "model: unreachable close state" := by
+  rcases h with h | h
+  · simp only [asyncPanicSites, List.mem_cons, List.not_mem_nil, or_false] at h
+    rcases h with rfl | rfl | rfl | rfl | rfl | rfl | rfl | rfl | rfl | rfl | rfl | rfl | rfl | rfl <;> decide
+  · simp only [strPanicSites, List.mem_cons, List.not_mem_nil, or_false] at h
+    rcases h with rfl | rfl | rfl | rfl | rfl <;> decide
+
+/-! ## Exact events of a phase transition -/
+
+def Phase.isHandler : Phase → Bool
+  | .handler _ _ => true
+  | _ => false
+
+/-- the events of one phase transition: quiet, unless it leads from `parseReq` into `handler`, in
+which case exactly one `HS(` event is appended -/
+def StepEvents (c c' : Conn) : Prop :=
+  ∃ new, c'.env.tr.events = c.env.tr.events ++ new ∧
+    ((Quiet new ∧ ¬ (c.phase.isParse = true ∧ c'.phase.isHandler = true)) ∨
+     (hsCount new = 1 ∧ c.phase.isParse = true ∧ c'.phase.isHandler = true))
+
+theorem StepEvents.of_tle {c c' : Conn} (h : TLe c.env.tr c'.env.tr)
+    (hph : ¬ (c.phase.isParse = true ∧ c'.phase.isHandler = true)) : StepEvents c c' := by
+  obtain ⟨n, e, q⟩ := h.ev
+  exact ⟨n, e, Or.inl ⟨q, hph⟩⟩
+
+theorem StepEvents.hs_start {c : Conn} {t : Transport} (hp : c.phase.isParse = true) (ht : TLe c.env.tr t)
+    (rq : Request) (r : AReq) (h : HState) (sc : List (List HOp × Bool)) :
+    StepEvents c { phase := .handler r h, env := ({ c.env with tr := t }).ev (hsEvent rq), scripts := sc,
+                   stop := c.stop } := by
+  obtain ⟨n, e, q⟩ := ht.ev
+  refine ⟨n ++ [hsEvent rq], ?_, Or.inr ⟨?_, hp, rfl⟩⟩
+  · show (t.events ++ [hsEvent rq]) = _
+    rw [e, List.append_assoc]
+  · rw [hsCount_append, hsCount_eq_zero q, hsCount_single_true (isHS_hsEvent _)]
+
+theorem stepConn_events (c : Conn) : StepEvents c (stepConn c).conn := by
+  obtain ⟨phase, env, scripts, stop⟩ := c
+  cases phase with
+  | finished => exact .of_tle (.refl _) (by simp [Phase.isParse])
+  | handler r h =>
+    simp only [stepConn]
+    repeat' split
+    all_goals
+      refine StepEvents.of_tle ?_ (by simp [Phase.isParse])
+      first
+        | exact handlerPoll_le _ _ _ _ ‹_›
+        | exact (handlerPoll_le _ _ _ _ ‹_›).trans (TLe.ev_of _ (by simp [isHS, toString_str]))
+  | closing r cs status alive =>
+    simp only [stepConn]
+    repeat' split
+    all_goals exact StepEvents.of_tle (closePoll_le ‹_›) (by simp [Phase.isParse])
+  | parseReq rp sub =>
+    cases stop with
+    | true => exact .of_tle (.refl _) (by simp [stepConn, Step.conn, Phase.isHandler])
+    | false =>
+      cases sub with
+      | start =>
+        simp only [stepConn, Bool.false_eq_true, if_false]
+        repeat' split
+        all_goals exact .of_tle (.refl _) (by simp [Step.conn, Phase.isHandler])
+      | reading =>
+        simp only [stepConn, Bool.false_eq_true, if_false]
+        repeat' split
+        all_goals exact .of_tle (read_le ‹_›) (by simp [Step.conn, Phase.isHandler])
+      | writing rest done =>
+        simp only [stepConn, Bool.false_eq_true, if_false]
+        repeat' split
+        all_goals first
+          | exact .of_tle (writeAllLoop_le _ _ _ ‹_›) (by simp [Step.conn, Phase.isHandler])
+          | exact StepEvents.hs_start rfl (writeAllLoop_le _ _ _ ‹_›) _ _ _ _
+
+/-! ## Connection fuel -/
+
+/-- Once a poll returns anything but the connection fuel guard, more fuel changes nothing. -/
+theorem pollConn_fuel_stable : ∀ (f : Nat) (c : Conn) {c' : Conn} {r : PRes},
+    pollConn f c = (c', r) → r ≠ .panic "model: connection fuel exhausted" →
+    ∀ k, pollConn (f + k) c = (c', r) := by
+  intro f
+  induction f with
+  | zero => intro c c' r h hne k; cases h; exact absurd rfl hne
+  | succ n ih =>
+    intro c c' r h hne k
+    rw [show n + 1 + k = (n + k) + 1 by omega, pollConn_succ]
+    rw [pollConn_succ] at h
+    cases hs : stepConn c with
+    | next c1 => rw [hs] at h; exact ih c1 h hne k
+    | halt c1 r1 => rw [hs] at h; exact h
+
 end Fcgi.Run
